@@ -4,6 +4,7 @@
 From Coq Require Import ZArith Bool List Sorting.Sorted Permutation.
 Import ListNotations.
 From Verif Require Import Model.Val Gen.Src_Greedy Model.Greedy Proofs.GreedyP Proofs.GreedyP2 Proofs.GreedyP3.
+From Verif Require Import Model.Res Model.Worker Proofs.ResP Proofs.WorkerP Proofs.GreedyP4.
 Open Scope Z_scope.
 
 (* the sort keys translated from the source are the documented priorities: earliest deadline (then graph
@@ -113,6 +114,34 @@ Theorem C13_simple_ledger : ledger_laws SL s_wle s_wok s_sok /\
     forall n, avail_of (s_wplace w t s) n = avail_of w n - demand (ss_req s) n.
 Proof. split; [exact SL_laws|exact s_wplace_conserve]. Qed.
 Print Assumptions C13_simple_ledger.
+
+(* and so is the shared worker model (Model/Res.v + Model/Worker.v: `any` and specific resource ids, the full
+   allocation ledger, Worker.place_task / can_accomodate_strategy / __deepcopy__ as modelled for C04), for plain
+   strategies with non-negative requests on well-formed ledgers; a fresh worker is well formed *)
+Theorem C13_worker_model : ledger_laws WL w_wle w_wok w_sok /\
+  (forall id v, NoDup (map fst v) -> nonneg_vec v -> w_wok (w_new id v)).
+Proof. split; [exact WL_laws|exact w_new_ok]. Qed.
+Print Assumptions C13_worker_model.
+(* hence, e.g., EDF on the shared worker model *)
+Theorem C13_edf_worker_model : forall e pre now (c : cluster WL) offered ds cf i x,
+  cok WL w_wok c -> tasks_ok WL w_sok offered ->
+  schedule_full WL edf e pre now c offered = Ok (ds, cf) ->
+  nth_error (ordered WL edf now offered) i = Some x -> nth_error ds i = Some (DUnplaced (t_id x)) ->
+  exists V,
+    run WL edf e now (virtual WL edf pre c) (firstn i (ordered WL edf now offered)) = Ok (firstn i ds, V) /\
+    (forall s p w, In s (t_strats x) -> In p V -> In w (snd p) -> w_fits s w = false) /\
+    (forall s p w, In s (t_strats x) -> In p cf -> In w (snd p) -> w_fits s w = false).
+Proof.
+  intros e pre now c offered ds cf i x H1 H2 H3 H4 H5.
+  destruct (c13_laws WL w_wle w_wok w_sok WL_laws edf e pre now c offered ds cf i x H1 H2 H3 H4 H5) as [V [R [F1 [_ [F2 _]]]]].
+  exists V. split; [exact R|]. split; [exact F1|exact F2].
+Qed.
+Print Assumptions C13_edf_worker_model.
+Theorem C13_example_worker_model :
+  cok WL w_wok wl_cluster /\ tasks_ok WL w_sok wl_tasks /\
+  schedule WL edf false false 0 wl_cluster wl_tasks = Ok [DPlace 0 0 0%nat 0; DUnplaced 1; DPlace 2 0 0%nat 0].
+Proof. split; [apply wl_hyps|]. split; [apply wl_hyps|exact wl_run]. Qed.
+Print Assumptions C13_example_worker_model.
 
 (* a closed witness with a tie: deadlines A=10 < B=12 = C=12 (C before B in the input, so before B in the
    order), two CPUs; A and C take one CPU each, B (2 CPUs) is unplaced: the placed tasks have priority higher
